@@ -10,6 +10,7 @@ import HkModel.Drive.Limits
 import HkModel.Drive.Fidelity
 import HkModel.Drive.Reload
 import HkModel.Drive.Publish
+import HkModel.Drive.Lex
 /-! `hkdriver <mode>`: reads protocol lines on stdin, answers one line per input line. -/
 open Hk
 
@@ -60,6 +61,7 @@ def main (args : List String) : IO UInt32 := do
   | ["fidelity"] => runPure DriveFidelity.processLine
   | ["reload"] => runPure DriveReload.processLine
   | ["publish"] => runPure DrivePublish.processLine
+  | ["cfgfmt"] => runPure DriveLex.processLine
   | ["auth"] =>
     let st ← loopAuth stdin stdout {}
     stdout.putStrLn ("SUMMARY {\"steps\":" ++ toString st.n ++ ",\"not_ok\":" ++ toString st.bad ++ "}")
